@@ -181,6 +181,17 @@ def fingerprint(fn):
                 else:
                     names.append(key(d))
             fp.append(tuple(sorted(set(names))))
+        # a test that is nothing but a local name (`if flag:`) has no text
+        # of its own once the locals are blanked: all such tests of a
+        # function would be twins of each other, and a NEW `if other:` would
+        # be taken for a changed `if flag:`.  Its identity is what it reads.
+        a = n.ast
+        if isinstance(a, ast.UnaryOp) and isinstance(a.op, ast.Not):
+            a = a.operand
+        if n.kind == 'test' and isinstance(a, ast.Name) and len(fp) == 1:
+            keys.discard(k)
+            k = k + ':' + '|'.join(fp[0])
+            keys.add(k)
         # the reads of one statement as a MULTISET (sorted): with the locals
         # blanked in the key, `a * b` and `b * a` are the same statement
         res.setdefault(k, []).append(tuple(sorted(fp)))
